@@ -24,7 +24,7 @@ def mix(seed, idx):
     return x
 
 
-def draw_cfg(rng, engine):
+def draw_cfg(rng, engine, deep=False):
     """Per-run configuration (swarm style)."""
     zone = 0
     r = rng.random()
@@ -75,8 +75,17 @@ def draw_cfg(rng, engine):
         'p_life': rng.choice([0.0, 0.1, 0.3]),
         'hstride': 512,
         'rslots': 64,
+        'deep': bool(deep),
         'p_repeat': rng.choice([0.0, 0.08, 0.2, 0.35]),
     }
+    if deep:
+        # deeper variant used by a quarter of the thorough runs: more callers, longer histories, and (engine N)
+        # a third call nested inside the second
+        if engine != 'H':
+            cfg['ntasks'] = rng.randint(3, 6)
+        cfg['nops'] = rng.randint(40, 100)
+        if engine == 'N':
+            cfg['p_nest'] = rng.choice([0.6, 0.9])
     return cfg
 
 
@@ -113,10 +122,10 @@ LIFE_KINDS = ('Interpolation', 'CurveFitting', 'Angle', 'Epoch', 'Earth', 'Minor
 class GenSource(object):
     mode = 'gen'
 
-    def __init__(self, seed, engine, steps_table=None, funcs=None, calls_table=None):
+    def __init__(self, seed, engine, steps_table=None, funcs=None, calls_table=None, deep=False):
         self.seed = seed
         self.rng = random.Random(seed)
-        self.cfg = draw_cfg(self.rng, engine)
+        self.cfg = draw_cfg(self.rng, engine, deep)
         self.steps_table = steps_table or {}
         self.calls_table = calls_table or {}
         self.next_id = 1
@@ -517,6 +526,8 @@ class GenSource(object):
             if depth == 0 and cfg['engine'] == 'N' and rng.random() < cfg['p_nest']:
                 for _ in range(rng.choice([1, 1, 2, 3])):
                     pts.append({'step': step(), 'kind': 'nest'})
+            if depth == 1 and cfg['engine'] == 'N' and cfg.get('deep') and rng.random() < 0.3:
+                pts.append({'step': step(), 'kind': 'nest'})
             if cfg['engine'] == 'T' and depth == 0:
                 s = 0
                 for _ in range(40):
@@ -587,13 +598,15 @@ class GenSource(object):
         return self.make_op(sim, task, 0)
 
     def nested(self, sim, parent, point):
-        others = [t for t in range(self.cfg['ntasks']) if t != parent['task']]
+        busy = set(sim.inflight_tasks())
+        busy.add(parent['task'])
+        others = [t for t in range(self.cfg['ntasks']) if t not in busy]
         if not others:
             return None
         if self.rng.random() < self.cfg['p_same'] and not parent['name'].startswith('@'):
             # the most telling interleaving for per-function scratch state: the same callable overlapping itself
             self.want_name = self._affine(parent['name'])
-        return self.make_op(sim, self.rng.choice(others), 1)
+        return self.make_op(sim, self.rng.choice(others), len(busy))
 
     # ---- thread engine
     def t_first(self, sim, runnable):
